@@ -58,7 +58,7 @@
 (* must return to the difficulty of the last ancestor that is not a        *)
 (* minimum-difficulty block (btcd findPrevTestNetDifficulty walks back     *)
 (* through Parent(); block_headers_validator.go lightHeaderCtx             *)
-(* .RelativeAncestorCtx :283 answers from the TARGET STORE for heights     *)
+(* .RelativeAncestorCtx :262 answers from the TARGET STORE for heights     *)
 (* below the file's first header and from the import source above).  That  *)
 (* block is always inside the file; kind "easybits" = it wrongly stays at  *)
 (* the limit bits (proof of work valid for them), so only the contextual   *)
